@@ -347,18 +347,23 @@ func c03Engine(c *caseCtx) (res caseResult) {
 			}
 			before := sum()
 			// nothing has been processed for 10 s. Decide on state. First: has the process come to rest
-			// (no goroutine that could still deliver anything)?
-			rest, where := atRest(3 * time.Second)
+			// (no goroutine that could still deliver anything)? If not it is merely slow.
+			late, rest, where := stallVerdict(wd, func() bool { return sum() == total })
+			if late {
+				continue
+			}
+			if !rest {
+				res.inconclusive("round %d: %d of %d processed within the watchdog, the process is not at rest: %s", round, sum(), total, where)
+				return
+			}
 			// Second: one kick per actor shows whether the rest was sitting in an idle inbox
 			for _, p := range pids {
 				e.Send(p, kickMsg{})
 			}
 			if fin2, _ := settle(wd/3, 10*time.Second, func() bool { return sum() == total }, sum); fin2 {
-				res.violate("round %d: senders fell silent with %d of %d messages processed and nothing moved for 10 s; the remaining %d were processed only after a further message kicked the actor (lost wake-up)", round, before, total, total-before)
-			} else if rest {
-				res.violate("round %d: senders fell silent with %d of %d messages processed; the process then came to rest (every goroutine parked, none running, runnable or sleeping: %s) with %d accepted messages unprocessed, and a further message to each actor changed nothing", round, before, total, where, total-before)
+				res.violate("round %d: senders fell silent with %d of %d messages processed and the process came to rest (%s); the remaining %d were processed only after a further message kicked the actor (lost wake-up)", round, before, total, where, total-before)
 			} else {
-				res.inconclusive("round %d: %d of %d processed, also after a kick (%s)", round, sum(), total, where)
+				res.violate("round %d: senders fell silent with %d of %d messages processed; the process then came to rest (every goroutine parked, none running, runnable or sleeping: %s) with %d accepted messages unprocessed, and a further message to each actor changed nothing", round, before, total, where, total-before)
 			}
 			return
 		}
@@ -505,18 +510,30 @@ func c03StopRace(c *caseCtx) (res caseResult) {
 			continue
 		case <-time.After(10 * time.Second):
 		}
-		// nothing for 10 s. A further message shows whether the request was sitting in an idle inbox
-		rest, where := atRest(2 * time.Second)
+		// nothing for 10 s. At rest (no worker goroutine left)? If not, the process is merely slow
+		ctxDone := func() bool {
+			select {
+			case <-ctx.Done():
+				return true
+			default:
+				return false
+			}
+		}
+		late, rest, where := stallVerdict(wd, ctxDone)
+		if late {
+			continue
+		}
+		if !rest {
+			res.inconclusive("round %d: stop context not done within the watchdog, the process is not at rest: %s", i, where)
+			return
+		}
+		// a further message shows whether the request was sitting in an idle inbox
 		e.Send(pid, kickMsg{})
 		select {
 		case <-ctx.Done():
-			res.violate("round %d: a stop request (graceful=%v) accepted by a started actor that had just run out of work was not processed for 10 s; it was processed as soon as a further message arrived (left behind at the idle transition) (%s)", i, graceful, res.Desc)
+			res.violate("round %d: a stop request (graceful=%v) accepted by a started actor that had just run out of work was not processed, the process came to rest (%s); it was processed as soon as a further message arrived (left behind at the idle transition) (%s)", i, graceful, where, res.Desc)
 		case <-time.After(wd / 2):
-			if rest {
-				res.violate("round %d: a stop request (graceful=%v) was never processed, the process is at rest (%s), and a further message changed nothing", i, graceful, where)
-			} else {
-				res.inconclusive("round %d: stop context not done, also after a kick (%s)", i, where)
-			}
+			res.violate("round %d: a stop request (graceful=%v) was never processed, the process is at rest (%s), and a further message changed nothing", i, graceful, where)
 		}
 		return
 	}
